@@ -38,6 +38,14 @@ def shape_ok(src, names):
 def spelled(v):
     """the operand of an eq case; kind "r" is a plain str spelling the formatting of a value in escape sequences"""
     import re
+    if v["k"] == "d":
+        # a value derived from one that was already on a screen: the same runs with the style switched on, rendered and
+        # hashed, then the style switched off again with fmtstr(value, style=False)
+        from curtsies.formatstring import fmtstr
+        i = v["style"]
+        fo = enc.build_fmtstr([[t, [2 if j == i else c for j, c in enumerate(a)]] for t, a in v["v"]])
+        str(fo), hash(fo), fo == fo
+        return fmtstr(fo, **{enc.STYLE_ORDER[i - 2]: False})
     if v["k"] != "r":
         return enc.build_value(v)
     s = str(enc.build_fmtstr(v["v"]))
@@ -63,7 +71,7 @@ class C19(PureCheck):
     warm_every = 3
     rule = ("pool of FmtStr values from Layouts(2,2) over {plain, red, bold+on_blue, red+bold=False} (same text/different "
             "formatting, same display/different run boundaries, empty runs, explicit False) plus every plain str of the pool's "
-            "texts and plain strs carrying escape sequences (the value's own terminal string and 6 other spellings of it); all ordered pairs (quick: a sampled pool of 150 -> all pairs) with ==, !=, reversed ==, hash, set and dict "
+            "texts and plain strs carrying escape sequences (the value's own terminal string and 6 other spellings of it), and values derived from an already rendered styled value by switching the style off; all ordered pairs (quick: a sampled pool of 150 -> all pairs) with ==, !=, reversed ==, hash, set and dict "
             "membership recorded together with both terminal strings; repr round trip (eval in a namespace holding only the "
             "fmtfuncs names) for every layout with >=1 run and texts with quotes/escapes. distinct_nontrivial = distinct pairs "
             "whose texts are equal but run lists differ, or repr cases with >=1 formatted run")
@@ -97,6 +105,16 @@ class C19(PureCheck):
                 r = {"k": "r", "v": l, "variant": j}
                 yield {"op": "eq", "x": {"k": "f", "v": l}, "y": r}
                 yield {"op": "eq", "x": r, "y": {"k": "f", "v": l}}
+        # derived values (rendered with a style on, then the style switched off) against the same runs built directly,
+        # against the still-styled original, against their terminal string as a plain str, and against themselves
+        for l in (fpool[:60] if tier == "quick" else fpool):
+            for i in (2, 5):
+                tgt = [[list(t), [1 if j == i else c for j, c in enumerate(a)]] for t, a in l]
+                on = [[list(t), [2 if j == i else c for j, c in enumerate(a)]] for t, a in l]
+                d = {"k": "d", "v": tgt, "style": i}
+                for other in ({"k": "f", "v": tgt}, {"k": "f", "v": on}, {"k": "r", "v": tgt, "variant": 0}, d):
+                    yield {"op": "eq", "x": d, "y": other}
+                    yield {"op": "eq", "x": other, "y": d}
         # values of different concrete classes (an application's subclass against the base class and against a str)
         for l in (fpool[:40] if tier == "quick" else fpool[:200]):
             for other in ({"k": "f", "v": l}, {"k": "r", "v": l, "variant": 0}, {"k": "f", "v": l[::-1]}):
@@ -148,8 +166,12 @@ class C19(PureCheck):
             ev["indict"] = int(y in {x: 1})
             x, y = pair()
             ev["heq"] = int(hash(x) == hash(y))
-            ev["strx"] = enc.enc_text(str(x))
-            ev["stry"] = enc.enc_text(str(y))
+            # the terminal string of a value is that of its runs (rendered from a fresh rebuild, not read from a memo)
+            def term(z):
+                from curtsies.formatstring import FmtStr, Chunk
+                return str(FmtStr(*(Chunk(str(c.s), dict(c.atts)) for c in z.chunks))) if isinstance(z, FmtStr) else str(z)
+            ev["strx"] = enc.enc_text(term(x))
+            ev["stry"] = enc.enc_text(term(y))
         else:
             f = enc.build_fmtstr(inp["f"])
             ns = fmtfuncs_ns()
